@@ -1154,3 +1154,24 @@ def numeric_species(rng, model):
     m.setdefault("species", {}).setdefault(k_, {}).setdefault("atomic_number", rng.randint(1, 90))
     m["species"][k_].setdefault("atomic_mass", rfloat(rng, 1.0, 200.0, 2))
   return m
+
+
+def long_labels(rng, model):
+  """The same model with long species labels that share their first eight (and first twelve) characters - 'Zirconium_a',
+  'Zirconium_b', 'Zirconium_a_2', 'Zirconiu': nothing in the model language limits a label's length, so a comparison of
+  labels cut to a fixed width (DL_POLY's 8-character atom names, seeded change C05r10) merges them."""
+  pool = ["Zirconium_a", "Zirconium_b", "Zirconium_a_2", "Zirconiu", "Zirconium_a_3", "Zirconium"]
+  rng.shuffle(pool)
+  names = list(model.get("all_species") or [])
+  for key in ("pair", "dipole", "quadrupole"):
+    for ent in model.get(key) or []:
+      for x in ent[:2]:
+        if x not in names:
+          names.append(x)
+  mapping = {n_: pool[i % len(pool)] for i, n_ in enumerate(names)}
+  m = rename_species(model, mapping)
+  for i, k_ in enumerate(m.get("all_species") or []):
+    d = m.setdefault("species", {}).setdefault(k_, {})
+    d.setdefault("atomic_number", 40 + i)
+    d.setdefault("atomic_mass", 91.2 + i)
+  return m
